@@ -115,6 +115,10 @@ class PgEnv(Env):
         if 'tokio_postgres' not in ci['text']: return None
         return s.ret(st, s.empty_record())
 
+    def t_Default__default(s, M, st, th, ci, a):
+        if 'tokio_postgres' in ci['text'] and ci['self_head'] == 'Config': return s.ret(st, s.empty_record())     # = Config::new()
+        return super().t_Default__default(M, st, th, ci, a)
+
     def t_FromStr__from_str(s, M, st, th, ci, a):
         if 'tokio_postgres::Config' not in ci['text']: return None
         outs = []
